@@ -552,6 +552,32 @@ fn small_docs() -> Vec<Node> {
             ]));
         }
     }
+    // positions of aliases relative to a merge key inside one mapping: the key / value parity
+    // that classifies `<<` must survive an alias in key position, in value position and in
+    // both (the replayed node takes the alias' place), with the merge value written in place
+    // or aliased; and a plain `<<` in *value* position after such an entry is no merge key
+    for flow in [false, true] {
+        let head = || vec![s("name").anchored("k"), Node::map(true, vec![(s("a"), s("1"))]).anchored("b")];
+        for which in 0..3 {
+            let entry = || match which {
+                0 => (Node::alias("k"), s("x")),
+                1 => (s("x"), Node::alias("k")),
+                _ => (Node::alias("k"), Node::alias("k")),
+            };
+            for aliased_merge in [false, true] {
+                let mv = if aliased_merge { Node::alias("b") } else { Node::map(true, vec![(s("i"), s("1"))]) };
+                let mut items = head();
+                items.push(Node::map(flow, vec![entry(), (s("<<"), mv.clone()), (s("z"), s("1"))]));
+                out.push(Node::seq(false, items));
+                let mut items = head();
+                items.push(Node::map(flow, vec![entry(), (s("y"), s("2")), (s("<<"), mv)]));
+                out.push(Node::seq(false, items));
+            }
+            let mut items = head();
+            items.push(Node::map(flow, vec![entry(), (s("y"), s("<<")), (s("z"), s("<<"))]));
+            out.push(Node::seq(false, items));
+        }
+    }
     out
 }
 
